@@ -74,7 +74,7 @@ class StageSpec(Spec):
 
     def actions(self, env):
         acts = [("setup", r) for r in self.reqs]
-        acts += [("in0", 1), ("in0", 0), ("out0z",), ("out0d",), ("setuptok",), ("setupbad", self.reqs[0]), ("in1", 1), ("in1", 0), ("out1",)]
+        acts += [("in0", 1), ("in0", 0), ("out0z",), ("out0d",), ("setuptok",), ("setupbad", self.reqs[0]), ("in1", 1), ("in1", 0), ("out1",), ("out1x8",)]
         return acts
 
     def goals(self):
@@ -209,13 +209,16 @@ class StageSpec(Spec):
                 if in_transfer: self.cover["status-out-acked"] += 1
             if k and k[0] == "data": raise Violation("data-sent-in-response-to-out", dict(got=k))
             if stage and dirin and wlen: new = (dirin, wlen, 2)
-        elif kind in ("in1", "out1"):
+        elif kind in ("in1", "out1", "out1x8"):
             before = self._probe0(cur)
             if kind == "in1":
                 k = self._in(cur, 1, a[1])
                 if not k or k[0] != "data": raise Violation("ep1-in-not-answered", dict(got=k))
-            else:
+            elif kind == "out1":
                 k = self._out(cur, 1, U.DATA0, (0x11, 0x22))
+            else:
+                # an 8-byte OUT packet for endpoint 1 whose payload looks like a GET_DESCRIPTOR setup packet
+                k = self._out(cur, 1, U.DATA0, U.setup_bytes(*REQS["GD18"]))
             after = self._probe0(cur)
             if before != after and "collision" not in (before, after):
                 raise Violation("other-endpoint-traffic-changed-ep0-behaviour:" + kind, dict(env=env, before=before, after=after))
